@@ -60,5 +60,5 @@ static __attribute__((noinline)) void do_case(unsigned i) {
 extern "C" void harness_c02() {
   unsigned sel = v_nondet_u32();
   v_assume(sel < CASES_PER_QUERY);
-  dispatch<Case, CASES_PER_QUERY>(sel);
+  dispatch<CaseW, CASES_PER_QUERY>(sel);
 }
